@@ -20,8 +20,8 @@ CLAIMED = {
         note="Trusted: Lean kernel + standard axioms, translator rows, hand-written machine (checked by the listfwd stream), harness; C10_full is false on the pinned code (D7, known finding)",
         technique="Lean 4 invariant/refinement proofs over heap histories + generated tables + model/Spec/implementation three-way stream"),
     "C13": dict(
-        text="Lean theorem C13_transparent: for property read, property write, invoke and super-invoke sites and every history of receivers (first execution, monomorphic, polymorphic, field shadowing a method, non-instances) the cached implementation does exactly what the slow path does, given frozen class tables and no reuse of a cached class address (witness theorem shows the envelope is needed); slot ids of a compile are distinct and in range; site-history programs with expected output from the slow-path rules run with caches on, forced off (hook) and under full collections at every allocation with classes created and dropped at run time; generated programs and fixtures caches-on vs caches-off",
-        note="Trusted: Lean kernel + standard axioms, hand-written cache model (tied by the cache-off differential and the site-history programs), cache-off hook; address reuse after collection (D16) is searched, not excluded by proof; REPL cache replacement is C19's known finding D13",
+        text="Lean theorem C13_transparent: for property read, property write, invoke and super-invoke sites and every history of receivers (first execution, monomorphic, polymorphic, field shadowing a method, non-instances) the cached implementation does exactly what the slow path does, given frozen class tables; that a cached class address is never reused is itself a theorem about heap histories with the caches among the roots (C13_cached_class_pinned, tied to Vm::trace / InlineCache::trace by a generated row; witness for the untraced code, defect D16, repaired); slot ids of a compile are distinct and in range; site-history programs with expected output from the slow-path rules run with caches on, forced off (hook) and under full collections at every allocation with classes created and dropped at run time; generated programs and fixtures caches-on vs caches-off",
+        note="Trusted: Lean kernel + standard axioms, hand-written cache model (tied by the cache-off differential and the site-history programs), cache-off hook; REPL cache replacement is C19's known finding D13",
         technique="Lean 4 history-transparency proof of the cache state machines + cache-off differential and site-history streams"),
     "C14": dict(
         text="Lean theorems over all 2^64 bit patterns with constants and method bodies regenerated from value.rs: round-trip, injectivity, class disjointness, kind/test agreement, arithmetic NaNs are numbers, equality agreement outside the exactly stated excluded set (and real difference on it), hash consistency; witnesses for D8; value engine in both builds vs model and Spec on boundary patterns; generated programs and the fixture corpus diffed across both builds",
